@@ -46,8 +46,10 @@ void h_register(void)
 {
   setup();
   CS *s = &ses[0]; static char text[8]; static str hex = {text, 4, 7};
+  { char a[8]; for (int k = 0; k < 8; ++k) text[k] = a[k]; }
   __CPROVER_assume(s->state == relay__RelayServer__SessionState__AwaitingCommand || s->state == relay__RelayServer__SessionState__Registered);   /* lines are parsed in these states only */
   SPLIT(relay__RelayServer__handle_register(&srv, &s, &hex));
+  if (srv.registered_.n == 1 && srv.registered_.e[0].second == s) { CANARY_AT("a REGISTER that lists the session"); }
   __CPROVER_assert(inv(), "REGISTER keeps pairings symmetric and lists only unclaimed sessions as registered (a claimed peer cannot be claimed again)");
   CANARY_POINT();
 }
@@ -55,10 +57,33 @@ void h_connect(void)
 {
   setup();
   CS *s = &ses[0]; static char t1[8], t2[8]; static str self_hex = {t1, 4, 7}, target_hex = {t2, 4, 7};
+  { char a[8], b[8]; for (int k = 0; k < 8; ++k) { t1[k] = a[k]; t2[k] = b[k]; } }      /* arbitrary ids (equal or different) */
   __CPROVER_assume(s->state == relay__RelayServer__SessionState__AwaitingCommand || s->state == relay__RelayServer__SessionState__Registered);
   CS *listed = srv.registered_.n ? srv.registered_.e[0].second : 0; CS *before = s->partner;
   SPLIT(relay__RelayServer__handle_connect(&srv, &s, &self_hex, &target_hex));
   __CPROVER_assert(inv(), "CONNECT keeps pairings symmetric and lists only unclaimed sessions as registered");
+
+  if (s->partner != before) { CANARY_AT("a CONNECT that pairs the connector"); }
   if (s->partner != before) __CPROVER_assert(s->partner == listed && srv.registered_.n == 0, "a connector is paired with the session that was listed for the target, which is then no longer listed");
+  CANARY_POINT();
+}
+
+/* disconnects: when a session goes away, detach_partner clears the partner's pointer; a partner whose bridge was being set up or was
+   established (AwaitingIdentity / Bridged) is disconnected too; a claimed-but-not-yet-bridged registered partner becomes claimable again */
+void h_detach(void)
+{
+  setup();
+  CS *s = &ses[0]; CS *p = s->partner;
+  int state_p = p ? p->state : -1;
+  g_closed = 0; g_closed_who = 0;
+  SPLIT(relay__RelayServer__detach_partner(&srv, &s));
+  if (p != 0) {
+    CANARY_AT("a disconnecting session that has a partner");
+    __CPROVER_assert(p->partner == 0, "the partner of a session that goes away no longer points at it");
+    if (state_p == relay__RelayServer__SessionState__Bridged || state_p == relay__RelayServer__SessionState__AwaitingIdentity)
+      __CPROVER_assert(g_closed == 1 && g_closed_who == (void *)p, "when one side of a bridge (established or being set up) disconnects, the other side is disconnected");
+    if (state_p == relay__RelayServer__SessionState__Registered && p->peer_hex.n > 0)
+      __CPROVER_assert(g_closed == 0 && srv.registered_.n == 1 && srv.registered_.e[0].second == p, "a registered peer whose connector went away before the bridge existed is listed again, not disconnected");
+  } else __CPROVER_assert(g_closed == 0, "a session without a partner disconnects nobody");
   CANARY_POINT();
 }
